@@ -87,6 +87,50 @@ inline Result reader(const std::string& bytes, void* mem = nullptr) {
   return r;
 }
 
+// The same file through the lower-level public API: the application drives a CdnsDecoder itself and reads every block into ONE
+// CdnsBlockRead object (CdnsBlockRead::read), draining whatever the object holds through the record accessors after each read -
+// also after a read that failed (an application that logs what it got before giving up).
+inline void drain(CDNS::CdnsBlockRead& b, Result& r) {
+  bool end = false;
+  for (unsigned guard = 0; guard < 100000; guard++) {
+    try { CDNS::GenericQueryResponse g = b.read_generic_qr(end); if (end) break; r.records++; { std::string t__ = g.string(); r.rendered += t__.size(); r.mix(t__); } }
+    catch (const std::exception& e) { classify(r, e); break; }
+  }
+  for (unsigned guard = 0; guard < 100000; guard++) {
+    try { CDNS::GenericAddressEventCount g = b.read_generic_aec(end); if (end) break; r.records++; { std::string t__ = g.string(); r.rendered += t__.size(); r.mix(t__); } }
+    catch (const std::exception& e) { classify(r, e); break; }
+  }
+  for (unsigned guard = 0; guard < 100000; guard++) {
+    try { CDNS::GenericMalformedMessage g = b.read_generic_mm(end); if (end) break; r.records++; { std::string t__ = g.string(); r.rendered += t__.size(); r.mix(t__); } }
+    catch (const std::exception& e) { classify(r, e); break; }
+  }
+}
+inline Result reuse_block_object(const std::string& bytes) {
+  Result r;
+  std::istringstream is(bytes);
+  try {
+    CDNS::CdnsDecoder dec(is);
+    bool indef = false, blocks_indef = false;
+    dec.read_array_start(indef);
+    r.mix(dec.read_textstring());
+    CDNS::FilePreamble fp;
+    fp.read(dec);
+    uint64_t n = dec.read_array_start(blocks_indef);
+    r.header_ok = true;
+    CDNS::CdnsBlockRead blk;
+    for (uint64_t k = 0; k < 4096; k++) {
+      if (blocks_indef ? dec.peek_type() == CDNS::CborType::BREAK : k >= n) break;
+      bool failed = false;
+      try { blk.read(dec, fp.m_block_parameters); r.blocks++; }
+      catch (const std::exception& e) { classify(r, e); failed = true; }
+      drain(blk, r);
+      if (failed) break;
+    }
+  } catch (const std::exception& e) { classify(r, e);
+  } catch (...) { r.non_std = true; }
+  return r;
+}
+
 // CdnsDecoder: an operation program over a stream
 inline Result decoder(const std::string& bytes, const std::string& program, void* mem = nullptr) {
   Result r;
